@@ -675,18 +675,26 @@ class Interp:
         self.unsupported(e, "unary op")
 
     def e_BoolOp(self, e, env):
+        # values whose truth had to be *decided* (UNKNOWN) are replaced by the decision, so that an
+        # enclosing test does not ask again
         if isinstance(e.op, ast.And):
             v = True
             for x in e.values:
                 v = self.eval(x, env)
-                if not self.truth(v, x):
-                    return v if isinstance(v, bool) or v is None else False
+                t = self.truth(v, x)
+                if not t:
+                    return v if isinstance(v, (bool, int, float, str, list, tuple, dict)) or v is None else False
+                if not isinstance(v, (bool, int, float, str, list, tuple, dict)):
+                    v = True if is_unknown(v) else v
             return v
         v = False
         for x in e.values:
             v = self.eval(x, env)
-            if self.truth(v, x):
-                return v
+            t = self.truth(v, x)
+            if t:
+                return True if is_unknown(v) else v
+            if is_unknown(v):
+                v = False
         return v
 
     def e_Compare(self, e, env):
